@@ -195,6 +195,9 @@ def play(cx, behaviours, tag, cmd="play", extra=None):
         idx = int(open(prog).read().strip() or -1) if os.path.exists(prog) else -1
         return trace, {"index": idx, "output": p.stdout[-3000:], "rc": p.returncode}
     log("[play] %s: %s (%.1fs)" % (tag, p.stdout.strip().splitlines()[-1] if p.stdout.strip() else "", time.time() - t))
+    dead = subprocess.run(["grep", "-c", '"k":"dead"', trace], stdout=subprocess.PIPE, text=True).stdout.strip()
+    if dead and int(dead) > 0:
+        raise Machinery("dead driver: %s executions of %s did not reach the state under test (preamble failed)" % (dead, tag))
     return trace, None
 
 
@@ -212,54 +215,72 @@ def read_idx(trace):
 
 
 def validate(cx, trace, trace_module, trace_cfg=None, timeout=3600):
-    """Validate a concatenation of executions. Returns list of rejected
-    executions as (first_line, last_line, beh_index, tlc_output)."""
+    """Validate a concatenation of executions (sharded over several TLC
+    processes). Returns the rejected executions."""
+    from concurrent.futures import ThreadPoolExecutor
     trace_cfg = trace_cfg or trace_module + ".cfg"
     lines = read_lines(trace)
     idx = read_idx(trace)
+    if not idx:
+        return []
+    nshards = max(1, min(8, len(lines) // 40000 + 1, len(idx)))
+    per = (len(idx) + nshards - 1) // nshards
+    shards = [idx[i:i + per] for i in range(0, len(idx), per)]
+    t = time.time()
+    with ThreadPoolExecutor(max_workers=len(shards)) as ex:
+        results = list(ex.map(lambda a: _validate_shard(cx, os.path.basename(trace), a[0], lines, a[1], trace_module,
+                                                         trace_cfg, timeout), enumerate(shards)))
     rejected = []
-    start = 0  # index into idx of first execution not yet judged
+    n_ok = n_ev = 0
+    for rj, ok, ev in results:
+        rejected += rj
+        n_ok += ok
+        n_ev += ev
+    cx.cov["traces_validated_against_impl"] += n_ok
+    cx.cov["events_validated"] += n_ev
+    log("[tv] %s: %d executions / %d events accepted, %d rejected (%d shards, %.1fs)" %
+        (os.path.basename(trace), n_ok, n_ev, len(rejected), len(shards), time.time() - t))
+    return rejected[:3]
+
+
+def _validate_shard(cx, name, shard_no, lines, idx, trace_module, trace_cfg, timeout):
+    rejected = []
+    start = 0
     rounds = 0
+    n_ok = n_ev = 0
     while start < len(idx):
         rounds += 1
         first_line = idx[start][0]
-        d = spec_dir(cx, "tv-%s-%d" % (os.path.basename(trace), rounds))
+        last_line = idx[-1][1]
+        d = spec_dir(cx, "tv-%s-%d-%d" % (name, shard_no, rounds))
         with open(os.path.join(d, "trace.ndjson"), "w") as f:
-            f.write("\n".join(lines[first_line - 1:]) + "\n")
-        t = time.time()
-        r = run_tlc(cx, d, trace_module, trace_cfg, workers=1, dfs=True, timeout=timeout)
+            f.write("\n".join(lines[first_line - 1:last_line]) + "\n")
+        r = run_tlc(cx, d, trace_module, trace_cfg, workers=1, dfs=True, timeout=timeout, heap="3g")
         out = r["out"]
+        shutil.rmtree(d, ignore_errors=True)
         if "No error has been found" in out and "REJECTED" not in out:
-            n = len(idx) - start
-            cx.cov["traces_validated_against_impl"] += n
-            cx.cov["events_validated"] += len(lines) - first_line + 1
-            log("[tv] %s: %d executions / %d events accepted (%.1fs)" %
-                (os.path.basename(trace), n, len(lines) - first_line + 1, time.time() - t))
-            shutil.rmtree(d, ignore_errors=True)
+            n_ok += len(idx) - start
+            n_ev += last_line - first_line + 1
             break
         m = re.search(r'"REJECTED at line", (\d+), "of", (\d+)', out)
         if not m:
             raise Machinery("trace validation failed without a verdict (spec error?):\n" + tail_of(out))
         hw = int(m.group(1)) + first_line - 1   # absolute line number
         k = start
-        while k < len(idx) and not (idx[k][0] <= hw <= idx[k][1] + 1):
+        while k < len(idx) and not (idx[k][0] <= hw <= idx[k][1]):
             k += 1
         if k >= len(idx):
-            k = len(idx) - 1
-        # the execution whose lines contain hw (hw == last+1 means it ended owing events)
-        if hw == idx[k][0] and k > start:
-            k -= 1  # rejected exactly at the next cfg line: the previous execution owes events
-        n_ok = k - start
-        cx.cov["traces_validated_against_impl"] += n_ok
+            k = len(idx) - 1   # rejected just past the last line: the last execution owes events
+        elif hw == idx[k][0] and k > start:
+            k -= 1             # rejected at the next cfg line: the previous execution owes events
+        n_ok += k - start
+        n_ev += idx[k][0] - first_line
         rejected.append({"first": idx[k][0], "last": idx[k][1], "beh": idx[k][2], "line": hw, "tlc": tail_of(out, 80)})
-        log("[tv] %s: execution #%d (behaviour %d) REJECTED at trace line %d" %
-            (os.path.basename(trace), k, idx[k][2], hw))
-        shutil.rmtree(d, ignore_errors=True)
+        log("[tv] %s: execution (behaviour %d) REJECTED at trace line %d" % (name, idx[k][2], hw))
         start = k + 1
         if len(rejected) >= 3:
-            log("[tv] too many rejections, stopping early")
             break
-    return rejected
+    return rejected, n_ok, n_ev
 
 
 def validate_single(cx, trace_lines, trace_module, trace_cfg=None, tag="single"):
@@ -455,4 +476,5 @@ def main():
 
 
 if __name__ == "__main__":
-    sys.exit(main())
+    import check as _self   # run inside the module `check` so that props.py shares its classes
+    sys.exit(_self.main())
